@@ -20,7 +20,8 @@ RULE = ("seeded force fields x residue graphs (same generator as C01/C02, all se
         "interaction (parameters, guards) with the molecule captured at the stage boundary; (3) with no missing link "
         "the recovered residue graph must equal the requested one on (resid, resname) and resid pairs; (4) a sample "
         "of connected outputs is consumed by gen_coords. non-trivial = written file with >= 2 residues; "
-        "distinct = hash(files, graph)")
+        "distinct = hash(files, graph)"
+        " Later strata: deferred writer's temporary directory on another file system, force fields whose only modification has another name, seeded sequences over the shipped libraries (requested vs recovered residues), removal links inside the residue-graph clause.")
 ASSUMPTIONS = ["interaction atom tuples compared up to reversal; impropers are written under [ dihedrals ]",
                "library stratum: parser trusted, only write / re-read / consume clauses are checked there"]
 CASE_TIMEOUT = 180
